@@ -835,7 +835,7 @@ pub fn check(property: &str, tier: &str, base_seed: u64, workers: usize, runs_ov
         wall_s: wall,
         violations: n_violations,
         assumptions: vec![
-            "structural oracle (syn parse, duplicate items/fields/variants/impl headers, unresolved paths) stands in for rustc in this tier".into(),
+            "structural oracle (syn parse, duplicate items/fields/variants/impl headers, unresolved paths, by-value containment cycles) stands in for rustc after every step; rustc itself sees the final outputs of a sample of clean sessions (rustc stage of C01/C07, value stage of C06)".into(),
             "validity of defaults is decided by the harness's own draft-07 validator for the generated fragment (cross-checked against python jsonschema by `verif selftest`)".into(),
             "hash seeds are owned through the process-local getrandom symbol; address-space layout is not controlled".into(),
         ],
@@ -862,7 +862,7 @@ pub fn check(property: &str, tier: &str, base_seed: u64, workers: usize, runs_ov
     ev.extra.insert("value_stage_modules_built_and_run".into(), json!(value_modules));
     ev.extra.insert("value_stage_wall_s".into(), json!(value_wall));
     ev.extra.insert("components_real".into(), json!(["typify_impl::TypeSpace (all conversion, merging, cycle breaking, finalisation, rendering, introspection)", "schemars / serde_json parsing", "syn parse of the output", "std HashMap/HashSet with SipHash keyed by the simulator"]));
-    ev.extra.insert("components_stub".into(), json!(["the client (the simulator plays the build script / progenitor)", "rustc: real `cargo check` only in the rustc stage of C01/C07 (rustc_checked_modules); the structural oracle stands in for it after every step"]));
+    ev.extra.insert("components_stub".into(), json!(["the client (the simulator plays the build script / progenitor)", "rustc: real `cargo check` only in the rustc stage of C01/C07 (rustc_checked_modules) and real `cargo build` + execution of the generated code only in the value stage of C06 (value_stage_modules_built_and_run); the structural oracle stands in for it after every step"]));
     if let Err(e) = ev.write() {
         eprintln!("HARNESS: cannot write evidence: {e}");
         return CheckResult { exit_code: 2 };
